@@ -102,7 +102,7 @@ Definition uts_retrying (t : string) (route idx : nat) (r : trec) (new_status : 
   else ret tt.
 
 Definition uts_completion (t : string) (route : nat) (evt : event) (ts : task_spec) (idx : nat)
-           (new_status : status) : M (option (dict * bool)) :=
+           (new_status old_status : status) : M (option (dict * bool)) :=
   if status_in new_status COMPLETED_STATUSES then
     (if negb (task_has_items ts && status_in new_status ABENDED_STATUSES)
      then modws (fun w => ws_remove_staged_task w t route)
@@ -126,7 +126,8 @@ Definition uts_completion (t : string) (route : nat) (evt : event) (ts : task_sp
       merge_dicts (dset "__current_task" (current_task_json (r_id r) (r_route r) (Some task_result)) in_ctx)
                   (state_ctx w) in
     retry_task <- try_catch
-                    (if status_in (wstatus w) ACTIVE_STATUSES
+                    (if negb (status_eqb new_status old_status)
+                        && status_in (wstatus w) ACTIVE_STATUSES
                         && tbl_transition_valid task_table new_status S_RETRYING
                      then evaluate_task_retry ev r current_ctx else ret false)
                     (fun x => log_error x (Some t) (Some route) None ;;;
@@ -199,7 +200,7 @@ Definition uts_machine (t : string) (route : nat) (evt : event) (ts : task_spec)
   uts_setst idx ns ;;;
   r' <- get_rec idx ;;
   uts_retrying t route idx r' (rstatus r') ;;;
-  completion <- uts_completion t route evt ts idx (rstatus r') ;;
+  completion <- uts_completion t route evt ts idx (rstatus r') (rstatus r) ;;
   uts_tail t route ts idx (rstatus r) (rstatus r') completion.
 
 Definition uts_main (t : string) (route : nat) (evt : event) (ts : task_spec)
@@ -242,7 +243,7 @@ Definition pre_machine (t : string) (route : nat) (evt : event) (ts : task_spec)
   uts_setst idx ns ;;;
   r' <- get_rec idx ;;
   uts_retrying t route idx r' (rstatus r') ;;;
-  completion <- uts_completion t route evt ts idx (rstatus r') ;;
+  completion <- uts_completion t route evt ts idx (rstatus r') (rstatus r) ;;
   ret {| po_ts := ts; po_idx := idx; po_old := rstatus r; po_new := rstatus r'; po_compl := completion |}.
 
 Definition pre_main (t : string) (route : nat) (evt : event) (ts : task_spec)
@@ -460,7 +461,7 @@ Hint Resolve pg_setst : presg.
 Lemma pg_retrying : forall t route idx r ns, preserves Rg (uts_retrying t route idx r ns).
 Proof. intros; unfold uts_retrying; walk. Qed.
 Hint Resolve pg_retrying : presg.
-Lemma pg_completion : forall t route evt ts idx ns, preserves Rg (uts_completion ev t route evt ts idx ns).
+Lemma pg_completion : forall t route evt ts idx ns o0, preserves Rg (uts_completion ev t route evt ts idx ns o0).
 Proof. intros; unfold uts_completion; walk. Qed.
 Hint Resolve pg_completion : presg.
 Lemma pg_queue : forall t route idx ts o n compl, preserves Rg (uts_queue ev t route idx ts o n compl).
@@ -649,16 +650,16 @@ Qed.
 (* what the completion step returns, and in which state: a positive retry decision leaves the state
    as it was when the record was read, is taken only when the table allows retrying from the new
    status, and the record read has tally < count *)
-Lemma completion_inv : forall t route evt ts idx new c c' compl,
-  uts_completion ev t route evt ts idx new c = (c', Val compl) ->
+Lemma completion_inv : forall t route evt ts idx new old c c' compl,
+  uts_completion ev t route evt ts idx new old c = (c', Val compl) ->
   (status_in new COMPLETED_STATUSES = false /\ compl = None /\ c' = c) \/
   (status_in new COMPLETED_STATUSES = true /\
    exists c1 r ctx b, Rk c c1 /\ c_graph c1 = c_graph c /\ nth_error (sequence (c_ws c1)) idx = Some r /\
      compl = Some (ctx, b) /\
      (b = true -> c' = c1 /\ tbl_transition_valid task_table new S_RETRYING = true /\ retry_allowed r true) /\
-     (r_retry r = None -> b = false)).
+     (r_retry r = None -> b = false) /\ (b = true -> new <> old)).
 Proof.
-  intros t route evt ts idx new c c' compl H. unfold uts_completion in H.
+  intros t route evt ts idx new old c c' compl H. unfold uts_completion in H.
   destruct (status_in new COMPLETED_STATUSES) eqn:Ec; [right; split; [reflexivity|]|left; inversion H; auto].
   apply bind_val_inv' in H. destruct H as [c1 [u [E1 H]]].
   assert (K1 : Rk c c1 /\ c_graph c1 = c_graph c).
@@ -676,20 +677,27 @@ Proof.
   apply bind_val_inv' in H. destruct H as [c5 [b [E5 H]]]. inversion H; subst c' compl; clear H.
   destruct K1 as [K1 K2].
   eexists c1, r, _, b.
-  split; [exact K1|]. split; [exact K2|]. split; [exact Hr|]. split; [reflexivity|]. split.
-  - intro Hb; subst b. apply try_true_inv in E5; try reflexivity.
+  split; [exact K1|]. split; [exact K2|]. split; [exact Hr|]. split; [reflexivity|].
+  assert (Guard : b = true -> c5 = c1 /\
+            negb (status_eqb new old) && status_in (wstatus (c_ws c1)) ACTIVE_STATUSES
+              && tbl_transition_valid task_table new S_RETRYING = true /\ retry_allowed r true).
+  { intro Hb; subst b. apply try_true_inv in E5; try reflexivity.
     + destruct E5 as [-> E5]. split; [reflexivity|].
-      destruct (status_in (wstatus (c_ws c1)) ACTIVE_STATUSES && tbl_transition_valid task_table new S_RETRYING) eqn:Eg;
-        [|inversion E5].
-      apply andb_prop in Eg; destruct Eg as [_ Eg]. split; [exact Eg|].
-      eapply evaluate_task_retry_bound; exact E5.
+      destruct (negb (status_eqb new old) && status_in (wstatus (c_ws c1)) ACTIVE_STATUSES
+                && tbl_transition_valid task_table new S_RETRYING) eqn:Eg; [|inversion E5].
+      split; [reflexivity|]. eapply evaluate_task_retry_bound; exact E5.
     + match goal with |- state_pure (if ?g then _ else _) => destruct g end;
         [apply evaluate_task_retry_pure|apply state_pure_ret].
-    + intro e. apply vpost_bind; intro. apply vpost_bind; intro. apply vpost_ret; reflexivity.
+    + intro e. apply vpost_bind; intro. apply vpost_bind; intro. apply vpost_ret; reflexivity. }
+  split; [|split].
+  - intro Hb. destruct (Guard Hb) as [G1 [G2 G3]]. split; [exact G1|]. split; [|exact G3].
+    apply andb_prop in G2; destruct G2 as [_ G2]; exact G2.
   - intro Hn. unfold try_catch in E5.
     assert (G : forall ctx, evaluate_task_retry ev r ctx c1 = (c1, Val false)) by (intro; unfold evaluate_task_retry; rewrite Hn; reflexivity).
     match type of E5 with context [if ?g then _ else _] => destruct g end;
       [rewrite G in E5|unfold ret in E5]; inversion E5; reflexivity.
+  - intros Hb Heq. destruct (Guard Hb) as [_ [G2 _]]. apply andb_prop in G2; destruct G2 as [G2 _].
+    apply andb_prop in G2; destruct G2 as [G2 _]. subst old. rewrite status_eqb_refl in G2. discriminate G2.
 Qed.
 
 End Completion.
@@ -716,7 +724,7 @@ Lemma pre_machine_inv : forall t route evt ts idx c c' p,
     nth_error (sequence (c_ws c1)) idx = Some (stepped r ns) /\
     tasks (c_ws c1) = tasks (c_ws c) /\ c_graph c1 = c_graph c /\
     uts_retrying t route idx (stepped r ns) (rstatus (stepped r ns)) c1 = (c2, Val tt) /\
-    uts_completion ev t route evt ts idx (rstatus (stepped r ns)) c2 = (c', Val (po_compl p)) /\
+    uts_completion ev t route evt ts idx (rstatus (stepped r ns)) (rstatus r) c2 = (c', Val (po_compl p)) /\
     po_ts p = ts /\ po_idx p = idx /\ po_old p = rstatus r /\ po_new p = rstatus (stepped r ns).
 Proof.
   intros t route evt ts idx c c' p H. unfold pre_machine in H.
@@ -744,7 +752,7 @@ Proof.
   intros t route ts idx c c' p H.
   destruct (pre_machine_inv _ _ _ _ _ _ _ _ H) as [r [ns [c1 [c2 [Hr [Ens [_ [_ [_ [_ [_ [Ec [_ [_ [Ho Hn]]]]]]]]]]]]]]].
   apply tpe_engine in Ens. rewrite stepped_status in Hn, Ec.
-  destruct (completion_inv _ _ _ _ _ _ _ _ _ _ Ec) as [[_ [Hc _]]|[Hcomp [c3 [r3 [ctx [b [_ [_ [_ [Hc [Hb _]]]]]]]]]]];
+  destruct (completion_inv _ _ _ _ _ _ _ _ _ _ _ Ec) as [[_ [Hc _]]|[Hcomp [c3 [r3 [ctx [b [_ [_ [_ [Hc [Hb _]]]]]]]]]]];
     [left; exact Hc|].
   destruct ns as [s|].
   - apply F_retry_event_target in Ens; subst s. rewrite retrying_not_completed in Hcomp; discriminate.
@@ -1041,7 +1049,7 @@ Proof.
   rewrite Hr in Hr0; inversion Hr0; subst r0; clear Hr0.
   assert (Hs : r_retry (stepped r ns) = None) by (rewrite stepped_retry; exact Hd).
   apply (retrying_none_inv _ _ _ _ _ _ _ Hs) in Ert; subst c5.
-  destruct (completion_inv _ _ _ _ _ _ _ _ _ _ Ec) as [[_ [Hn0 _]]|[_ [c6 [r6 [ctx6 [b6 [[Ks _] [_ [Hr6 [Hc6 [_ Hb6]]]]]]]]]]].
+  destruct (completion_inv _ _ _ _ _ _ _ _ _ _ _ Ec) as [[_ [Hn0 _]]|[_ [c6 [r6 [ctx6 [b6 [[Ks _] [_ [Hr6 [Hc6 [_ Hb6]]]]]]]]]]].
   - rewrite Hn0 in Hc; discriminate.
   - rewrite Hc6 in Hc; inversion Hc; subst. apply Hb6. rewrite Ks, Hn in Hr6. inversion Hr6; subst; exact Hs.
 Qed.
@@ -1597,7 +1605,7 @@ Lemma pt_logfail : forall t evt, preserves Rt (uts_logfail t evt).
 Proof. intros; unfold uts_logfail; walk. Qed.
 Lemma pt_setst : forall i ns, preserves Rt (uts_setst i ns).
 Proof. intros; unfold uts_setst; walk. Qed.
-Lemma pt_completion : forall t route evt ts idx ns, preserves Rt (uts_completion ev t route evt ts idx ns).
+Lemma pt_completion : forall t route evt ts idx ns o0, preserves Rt (uts_completion ev t route evt ts idx ns o0).
 Proof. intros; unfold uts_completion; walk. Qed.
 Lemma pt_queue : forall t route idx ts o n compl, preserves Rt (uts_queue ev t route idx ts o n compl).
 Proof. intros; unfold uts_queue; walk. Qed.
@@ -1855,7 +1863,7 @@ Proof.
   assert (Hi3 : tally_inv c3) by (eapply pt_completion; [exact E3|exact Hi2]).
   inversion H; subst c' res; clear H. split; [exact Hi3|].
   intros p Hpv; inversion Hpv; subst p; clear Hpv. intros ctx Hc; simpl in *.
-  destruct (completion_inv _ _ _ _ _ _ _ _ _ _ E3) as [[_ [Hn0 _]]|[_ [c4 [r4 [ctx4 [b4 [[Ks Kt] [_ [Hr4 [Hc4 [Hb4 _]]]]]]]]]]].
+  destruct (completion_inv _ _ _ _ _ _ _ _ _ _ _ E3) as [[_ [Hn0 _]]|[_ [c4 [r4 [ctx4 [b4 [[Ks Kt] [_ [Hr4 [Hc4 [Hb4 _]]]]]]]]]]].
   - rewrite Hn0 in Hc; discriminate.
   - rewrite Hc4 in Hc; inversion Hc; subst ctx4 b4. destruct (Hb4 eq_refl) as [-> [_ Hbd]].
     split; [|exists r4; split; [exact Hr4|apply retry_allowed_bounded; exact Hbd]].
